@@ -220,7 +220,15 @@ func genC14(g *Rng, tier string, emit func(Op)) {
 			panic(err)
 		}
 		trees := proofListTrees(pl)
-		emit(listOp(kps, trees, context, nonce, issig, kss, "joint-list", "accept"))
+		ambig := false
+		for _, t := range trees {
+			if tt, ok := t.(T); ok && tt["nonrev_proof"] != nil && ambiguous(tt) {
+				ambig = true // the known verifier ambiguity of C11 is not this property's concern
+			}
+		}
+		if !ambig {
+			emit(listOp(kps, trees, context, nonce, issig, kss, "joint-list", "accept"))
+		}
 		// without the server's contribution the participating proofs do not verify
 		pl2, _ := builders.BuildDistributedProofList(challenge, nil)
 		anyPart := false
